@@ -8,6 +8,7 @@ R11.profile no build-profile-dependent integer arithmetic on FML values (i32 pay
             numerics; arithmetic on lengths/indices/counters is exempt by provenance (listed).
 R11.cfg     no cfg!(debug_assertions)/debug_assert* in that code.
 """
+import re
 from .. import anchors as A
 from ..facts import walk_body, callee_def, callee_name, loc, user_macros_of, peel, macros_of
 from ..census import arith_sites, local_of
@@ -145,6 +146,17 @@ def run(ck, fx, cg, tier):
             else:
                 ck.ob("R11.profile", key, True, loc(n), "exempt (%s): %s" % (cls, why), nontrivial=False)
                 exempt.append({"fn": hb["path"], "at": loc(n), "op": op, "type": prim, "class": cls, "why": why})
+    # command-line options that silently fall back to environment variables (clap `env = ".."`): no call to std::env
+    # appears in the source, the read happens inside the derive
+    n_clap = 0
+    for h in fx.helper_attrs:
+        if "clap" not in h["text"]:
+            continue
+        n_clap += 1
+        if re.search(r"\benv\b\s*(=|\()", h["text"]) or re.search(r"\benv\s*\)", h["text"]) or re.search(r",\s*env\s*[,)\]]", h["text"]):
+            ck.ob("R11.env", "%s|%s|clap env" % (h["item"], h["on"]), False, "src/main.rs",
+                  "the option falls back to an environment variable (%s): the same command line gives different results in different environments" % " ".join(h["text"].split())[:160])
+    ck.ob("R11.env", "command-line options do not read the environment", True, "", "%d clap attribute(s) examined" % n_clap, nontrivial=False)
     okp, whyp = shared.cargo_profiles_agree()
     ck.ob("R11.profile", "Cargo.toml|profiles agree on the panic strategy", okp, "Cargo.toml",
           whyp + ("" if okp else " — a failing program loses its unflushed output and exits with SIGABRT in one build but not in the other"))
